@@ -17,10 +17,12 @@
     `from sqlglot.dialects.d import D` executed while the outer access holds the lock (no acquisition);
   * one atomic step of one thread at a time, any interleaving (`step cfg s t`; `runSched` over a choice list).
 
-  What is NOT modelled (assumptions of the check, see vf/props/c19.py): the GIL / bytecode-level atomicity of the
-  individual steps, importlib's per-module locks and dead-lock breaking, threads that import a dialect module
-  through `_Dialect._try_load` (no package lock there; that path is safe only by importlib's lock), the content of
-  module bodies. No proofs in this file.
+  What is NOT in THIS first model (A): importlib's per-module locks and the `_Dialect._try_load` string route — they are
+  in the two further models of this file: `Routes` (lock ORDER of package lock vs module locks, progress) and `Full`
+  (package lock + re-entrant module locks, both routes, multi-step class configuration and registry order, the
+  lock-free `sys.modules` fast path, the multi-step dispatch fill; safety). Assumptions that remain everywhere (see
+  vf/props/c19.py): the GIL / bytecode-level atomicity of the individual steps, importlib's dead-lock DETECTION
+  between module locks, the content of module bodies. No proofs in this file.
 -/
 namespace SqlglotModel.Threads
 
@@ -381,5 +383,240 @@ def Pc.isRe : Pc → Bool
   | _ => false
 
 end Routes
+
+
+/-! ### the full model: package lock AND importlib's module locks, both routes, class configuration, dispatch fill
+
+  `Full` extends the package-lock model above with what it left to assumptions:
+  * importlib's per-module locks (`mlock`, re-entrant per thread: "a thread never blocks on a module lock it already
+    holds" is all that is kept of importlib's dead-lock avoidance): `import_module` = acquire the module lock, test
+    `sys.modules`, (miss) insert + run the body, configure and register the class, finish the body, release;
+  * the string route `Dialect.get("name")` (`Op.lookup`): one atomic read of the registry (and, when `lookupWaits`, of
+    the module's `_initializing` flag); on a miss / initialising module `_try_load` = `import_module` WITHOUT the package
+    lock, then `_classes.get`;
+  * `_Dialect.__new__` as a multi-step configuration (`conf m l k`), with the `_classes[...] = klass` store either FIRST
+    (`registerFirst`, the ordering before ddc0df6) or LAST; the rest of the module body after the class statement (`fin`);
+  * the lazy `__getattr__` optionally with a lock-free `sys.modules` fast path (`fastPath`, the seeded optimizer variant);
+  * the dispatch cache fill as a multi-step write: either into a private table that is stored when complete, or
+    (`publishEarly`) stored empty and filled in place.
+  One package per model instance (dialects, optimizer). Progress (dead-lock freedom) is NOT claimed here — see
+  `deadlock_free` (package lock alone) and `Routes` (lock order); this model carries the safety theorems. -/
+namespace Full
+
+inductive Op
+  | access (m : Mod)
+  | lookup (m : Mod)
+  | gen (m : Mod)
+  deriving DecidableEq, Repr, Inhabited
+
+inductive Res
+  | attr (m : Mod) (moduleDone : Bool)                     -- the lazy attribute access returned this module('s class)
+  | cls (m : Mod) (found configured moduleDone : Bool)     -- what `Dialect.get` handed out, as it was at that moment
+  | disp (m : Mod) (entries : Nat)                         -- the dispatch table the generator got, entries it had then
+  deriving DecidableEq, Repr, Inhabited
+
+structure FCfg where
+  body : Mod → List Item
+  cfgSteps : Mod → Nat
+  tableSize : Mod → Nat
+  registerFirst : Bool
+  lookupWaits : Bool
+  fastPath : Bool
+  publishEarly : Bool
+
+inductive Frame
+  | wantP (m : Mod)
+  | wantM (m : Mod) (l : Bool)
+  | test (m : Mod) (l : Bool)
+  | load (m : Mod) (l : Bool)
+  | body (m : Mod) (l : Bool) (rest : List Item)
+  | conf (m : Mod) (l : Bool) (k : Nat)
+  | fin (m : Mod) (l : Bool)
+  | leave (m : Mod) (l : Bool)
+  deriving DecidableEq, Repr, Inhabited
+
+def Frame.mod : Frame → Mod
+  | .wantP m => m
+  | .wantM m _ => m
+  | .test m _ => m
+  | .load m _ => m
+  | .body m _ _ => m
+  | .conf m _ _ => m
+  | .fin m _ => m
+  | .leave m _ => m
+
+def Frame.isBody : Frame → Bool
+  | .body _ _ _ => true
+  | _ => false
+
+/-- the frame accounts for one level of the module lock of … -/
+def Frame.holdsMod : Frame → Option Mod
+  | .wantP _ => none
+  | .wantM _ _ => none
+  | f => some f.mod
+
+/-- the module body of … is running in this frame (started, not done) -/
+def Frame.inProgress : Frame → Option Mod
+  | .body m _ _ => some m
+  | .conf m _ _ => some m
+  | .fin m _ => some m
+  | _ => none
+
+structure Thread where
+  stack : List Frame
+  pending : Option (Mod × Nat)   -- dispatch fill in flight: class, entries written so far (private table)
+  todo : List Op
+  results : List Res
+  deriving Repr, Inhabited
+
+structure FState where
+  pkg : Option (Tid × Nat)
+  mlock : Mod → Option (Tid × Nat)
+  started : Mod → Bool       -- in sys.modules
+  done : Mod → Bool          -- body finished (`_initializing` = started ∧ ¬done)
+  registered : Mod → Bool    -- key in `_Dialect._classes`
+  confDone : Mod → Bool      -- `__new__` has configured the class completely
+  loads : Mod → Nat
+  cache : Mod → Option Nat   -- `_DISPATCH_CACHE[cls]`: number of entries the stored table has right now
+  threads : Tid → Thread
+
+def setT (s : FState) (t : Tid) (th : Thread) : FState :=
+  { s with threads := fun u => if u = t then th else s.threads u }
+
+def initializing (s : FState) (m : Mod) : Bool := s.started m && !s.done m
+
+def finishOp (th : Thread) (r : Res) : Thread :=
+  { th with todo := th.todo.tail, results := th.results ++ [r] }
+
+/-- the result a completed import hands to the operation in flight -/
+def opResult (s : FState) (op : Option Op) (m : Mod) : Res :=
+  match op with
+  | some (.lookup _) => .cls m (s.registered m) (s.confDone m) (s.done m)
+  | _ => .attr m (s.done m)
+
+def popFrame (s : FState) (th : Thread) (m : Mod) (fs : List Frame) : Thread :=
+  match fs with
+  | [] => { finishOp th (opResult s th.todo.head? m) with stack := [] }
+  | _ :: _ => { th with stack := fs }
+
+def stepStart (cfg : FCfg) (s : FState) (t : Tid) (th : Thread) : Option FState :=
+  match th.todo with
+  | [] => none
+  | .access m :: _ =>
+    if cfg.fastPath && s.started m then some (setT s t (finishOp th (.attr m (s.done m))))
+    else some (setT s t { th with stack := [.wantP m] })
+  | .lookup m :: _ =>
+    if s.registered m && (!cfg.lookupWaits || !initializing s m) then
+      some (setT s t (finishOp th (.cls m true (s.confDone m) (s.done m))))
+    else some (setT s t { th with stack := [.wantM m false] })
+  | .gen m :: _ =>
+    match s.cache m with
+    | some n => some (setT s t (finishOp th (.disp m n)))
+    | none =>
+      if cfg.publishEarly then
+        some (setT { s with cache := fun x => if x = m then some 0 else s.cache x } t { th with pending := some (m, 0) })
+      else some (setT s t { th with pending := some (m, 0) })
+
+def stepFill (cfg : FCfg) (s : FState) (t : Tid) (th : Thread) (m : Mod) (n : Nat) : FState :=
+  if cfg.publishEarly then
+    let k := (s.cache m).getD 0
+    if k < cfg.tableSize m then
+      setT { s with cache := fun x => if x = m then some (k + 1) else s.cache x } t th
+    else setT s t { finishOp th (.disp m k) with pending := none }
+  else if n < cfg.tableSize m then setT s t { th with pending := some (m, n + 1) }
+  else setT { s with cache := fun x => if x = m then some n else s.cache x } t
+         { finishOp th (.disp m n) with pending := none }
+
+def stepBody (cfg : FCfg) (s : FState) (t : Tid) (th : Thread) (m : Mod) (l : Bool) (rest : List Item)
+    (fs : List Frame) : FState :=
+  match rest with
+  | [] => setT { s with registered := fun x => if x = m then (cfg.registerFirst || s.registered m) else s.registered x } t
+               { th with stack := .conf m l (cfg.cfgSteps m) :: fs }
+  | .lazy d :: rest' => setT s t { th with stack := .wantP d :: .body m l rest' :: fs }
+  | .direct d :: rest' => setT s t { th with stack := .wantM d false :: .body m l rest' :: fs }
+
+def stepLeave (s : FState) (t : Tid) (th : Thread) (m : Mod) (l : Bool) (fs : List Frame) : Option FState :=
+  match release .rlock (s.mlock m) t with
+  | none => none
+  | some ml =>
+    let s1 := { s with mlock := fun x => if x = m then ml else s.mlock x }
+    if l then
+      match release .rlock s.pkg t with
+      | none => none
+      | some lk => some (setT { s1 with pkg := lk } t (popFrame s th m fs))
+    else some (setT s1 t (popFrame s th m fs))
+
+def stepFrame (cfg : FCfg) (s : FState) (t : Tid) (th : Thread) (f : Frame) (fs : List Frame) : Option FState :=
+  match f with
+  | .wantP m =>
+    match acquire .rlock s.pkg t with
+    | none => none
+    | some lk => some (setT { s with pkg := lk } t { th with stack := .wantM m true :: fs })
+  | .wantM m l =>
+    match acquire .rlock (s.mlock m) t with
+    | none => none
+    | some ml => some (setT { s with mlock := fun x => if x = m then ml else s.mlock x } t
+                        { th with stack := .test m l :: fs })
+  | .test m l =>
+    if s.started m then some (setT s t { th with stack := .leave m l :: fs })
+    else some (setT s t { th with stack := .load m l :: fs })
+  | .load m l =>
+    some (setT { s with started := fun x => if x = m then true else s.started x,
+                        loads := fun x => if x = m then s.loads m + 1 else s.loads x } t
+               { th with stack := .body m l (cfg.body m) :: fs })
+  | .body m l rest => some (stepBody cfg s t th m l rest fs)
+  | .conf m l (k + 1) => some (setT s t { th with stack := .conf m l k :: fs })
+  | .conf m l 0 =>
+    some (setT { s with confDone := fun x => if x = m then true else s.confDone x,
+                        registered := fun x => if x = m then true else s.registered x } t
+               { th with stack := .fin m l :: fs })
+  | .fin m l =>
+    some (setT { s with done := fun x => if x = m then true else s.done x } t { th with stack := .leave m l :: fs })
+  | .leave m l => stepLeave s t th m l fs
+
+/-- one atomic step of thread `t`; `none` = finished or blocked -/
+def fstep (cfg : FCfg) (s : FState) (t : Tid) : Option FState :=
+  match (s.threads t).pending with
+  | some (m, n) => some (stepFill cfg s t (s.threads t) m n)
+  | none =>
+    match (s.threads t).stack with
+    | [] => stepStart cfg s t (s.threads t)
+    | f :: fs => stepFrame cfg s t (s.threads t) f fs
+
+def finit (progs : Tid → List Op) : FState :=
+  { pkg := none, mlock := fun _ => none, started := fun _ => false, done := fun _ => false,
+    registered := fun _ => false, confDone := fun _ => false, loads := fun _ => 0, cache := fun _ => none,
+    threads := fun t => { stack := [], pending := none, todo := progs t, results := [] } }
+
+def frun (cfg : FCfg) (s : FState) : List Tid → FState
+  | [] => s
+  | t :: ts =>
+    match fstep cfg s t with
+    | some s' => frun cfg s' ts
+    | none => frun cfg s ts
+
+def Thread.finished (th : Thread) : Bool := th.stack.isEmpty && th.pending.isNone && th.todo.isEmpty
+
+def FComplete (s : FState) : Prop := ∀ t, (s.threads t).finished = true
+
+/-- what the call returns when it runs alone -/
+def fexpected (cfg : FCfg) : Op → Res
+  | .access m => .attr m true
+  | .lookup m => .cls m true true true
+  | .gen m => .disp m (cfg.tableSize m)
+
+def fseq (cfg : FCfg) (prog : List Op) : List Res := prog.map (fexpected cfg)
+
+end Full
+
+/-- structural facts about `_Dialect.__new__` / `get` / `__getitem__`, the two `__getattr__`s and `Generator.__init__`,
+    re-extracted from the source on every run -/
+structure SourceShape where
+  registerLast : Bool        -- `cls._classes[...] = klass` is the last statement of `__new__` before `return klass`
+  lookupsWait : Bool         -- `get` and `__getitem__` call `_try_load` also while `_is_initializing(key)`
+  dialectsLockFirst : Bool   -- no `sys.modules` / `globals()` read in the dialects `__getattr__` outside `with _import_lock`
+  optimizerLockFirst : Bool  -- … same for the optimizer `__getattr__`
+  buildThenStore : Bool      -- `Generator.__init__` stores into `_DISPATCH_CACHE` a table that is already complete
+  deriving DecidableEq, Repr
 
 end SqlglotModel.Threads
